@@ -35,3 +35,4 @@ def f14_await_incomplete(F, idx, by, ev) -> bool:
 
 
 SIG_F14 = 'parallel_sibling_inline_overlap'
+
